@@ -23,6 +23,7 @@ import (
 	"sort"
 	"strconv"
 	"strings"
+	"sync/atomic"
 	"time"
 
 	"github.com/influxdata/influxdb/v2/tsdb"
@@ -242,7 +243,7 @@ func (r *runner) Op(t []string) string {
 		if !ok || size == 0 || size > 100000 {
 			return "bad-op"
 		}
-		return r.compact(t[1] == "fast", size, t[3] == "1")
+		return guarded(func() string { return r.compact(t[1] == "fast", size, t[3] == "1") })
 	case "snap":
 		if len(t) != 2 {
 			return "bad-op"
@@ -251,9 +252,45 @@ func (r *runner) Op(t []string) string {
 		if !ok || size > 100000 {
 			return "bad-op"
 		}
-		return r.snap(size)
+		return guarded(func() string { return r.snap(size) })
 	}
 	return "bad-op"
+}
+
+// wedged counts compactions of this process that did not return.  A compaction
+// that loops forever keeps its goroutine spinning, so after two of them the
+// process answers "err:timeout" at once instead of piling up more.
+var wedged int32
+
+func guarded(f func() string) string {
+	if atomic.LoadInt32(&wedged) >= 2 {
+		return "err:timeout"
+	}
+	done := make(chan string, 1)
+	go func() {
+		defer func() {
+			if p := recover(); p != nil {
+				msg := strings.Map(func(r rune) rune {
+					if r == '\t' || r == '\n' || r == ' ' {
+						return '_'
+					}
+					return r
+				}, fmt.Sprint(p))
+				if len(msg) > 80 {
+					msg = msg[:80]
+				}
+				done <- "panic:" + msg
+			}
+		}()
+		done <- f()
+	}()
+	select {
+	case a := <-done:
+		return a
+	case <-time.After(25 * time.Second):
+		atomic.AddInt32(&wedged, 1)
+		return "err:timeout"
+	}
 }
 
 // fileStore is what Compactor needs from a FileStore.
